@@ -245,14 +245,18 @@ class Bounds:
     if len(stores) != 1:
       return None
     val = norm(stores[0].ast.value)
+    ok, v = au.const(cls.attrs.get('_min_timepoints'))
+    if not (ok and isinstance(v, int)):
+      return None
+    # (the class constant is substituted by its value when the program is specialised to its default configuration)
+    wanted = {'len(%s) >= self._min_timepoints' % val, 'len(%s) >= %d' % (val, v)}
     for p in pathcond.paths_to(ctx.g, lambda n: n is stores[0], back_limit=0):
       pf = pathcond.PathFacts(p, None)
       if not pf.feasible:
         continue
-      if not pf.every_case_has(lambda e, t: 'len(%s) >= self._min_timepoints' % val in pathcond.rel_forms(e, t)):
+      if not pf.every_case_has(lambda e, t: bool(wanted & pathcond.rel_forms(e, t))):
         return None
-    ok, v = au.const(cls.attrs.get('_min_timepoints'))
-    return v if ok and isinstance(v, int) else None
+    return v
 
 
 def _unpack_source(rd, d, hops=5):
@@ -1040,6 +1044,7 @@ def run(repo, rep, tier):
   c09_extra.r1d_greedy_keys(repo, rep)
   c09_extra.r1g_integer_parameters(repo, rep, closure)
   c09_extra.r1h_dict_field_keys(repo, rep, closure)
+  c09_extra.r1i_index_arrays(repo, rep, closure)
   # R1e: shared with C10 — indices never refer to a stale array
   from mmsa.props import c10
   sub = type(rep)(rep.prop, rep.tier, rep.repo)
